@@ -648,6 +648,46 @@ def unit_oracle(ctx, case, out):
 # ------------------------------------------------------------------------------------------------------------
 # grid cases
 # ------------------------------------------------------------------------------------------------------------
+# Getters of a grid object that return a COPY on the unchanged tree (probed once with np.shares_memory on cube4D, randomQ,
+# zero4D, fulldiv, ico, cube3D, randomS, zero3D): the fancy-indexed `grid[upper_indices]`.
+#   4-D: get_grid_as_array(only_upper=True) and the default call (only_upper defaults to True)
+#   3-D: get_grid_as_array(only_upper=True)
+# NOT listed (they return the stored array itself also on the unchanged tree, so writing into them is the caller's problem):
+#   get_grid_as_array(only_upper=False) in both dimensions and the 3-D default call.
+COPY_GETTERS = {4: (("get_grid_as_array(only_upper=True)", {"only_upper": True}), ("get_grid_as_array()", {})),
+                3: (("get_grid_as_array(only_upper=True)", {"only_upper": True}),)}
+
+
+def _alias_probe(g, dim, full, upper, idx):
+    """Overwrite, in place, the array a copy-getter returned and read the grid again: the object's own grid must not
+    change (otherwise a caller that reorders / negates / re-normalises the returned upper half silently destroys the
+    canonical half and the [G; -G] layout).  Returns None or a description of the first difference."""
+    for name, kw in COPY_GETTERS[dim]:
+        a = g.get_grid_as_array(**kw)
+        if not isinstance(a, np.ndarray) or a.size == 0:
+            continue
+        try:
+            a[...] = 7.5          # no grid row can look like this
+        except ValueError:        # read-only array: cannot alias
+            continue
+        full2 = np.array(g.get_grid_as_array(only_upper=False), dtype=float)
+        idx2 = [int(i) for i in g.get_upper_indices()]
+        upper2 = np.array(g.get_grid_as_array(only_upper=True), dtype=float) if idx2 else np.zeros((0, dim))
+        for what, before, after in (("get_grid_as_array(only_upper=False)", full, full2),
+                                    ("get_grid_as_array(only_upper=True)", upper, upper2)):
+            if before.shape != after.shape or not np.array_equal(before, after):
+                row = 0
+                if before.shape == after.shape:
+                    row = int(np.nonzero((before != after).any(axis=1))[0][0])
+                return {"written_into": name, "changed_read": what, "row": row,
+                        "before": before[row].tolist() if row < len(before) else None,
+                        "after": after[row].tolist() if row < len(after) else None,
+                        "shape_before": list(before.shape), "shape_after": list(after.shape)}
+        if idx2 != idx:
+            return {"written_into": name, "changed_read": "get_upper_indices()", "before": idx[:10], "after": idx2[:10]}
+    return None
+
+
 def grid_impl(case):
     """SphereGridFactory.create(alg, N, dim) and its getters.  With case['inject'] the grid object is created by its
     class constructor and handed the reference polytope of the level the loop would stop at (saves rebuilding the
@@ -668,6 +708,7 @@ def grid_impl(case):
             default = np.array(g.get_grid_as_array(), dtype=float)
             out = {"full": full, "upper": upper, "idx": idx, "default_is": "upper" if np.array_equal(default, upper) and dim == 4 else
                    ("full" if np.array_equal(default, full) else "other"), "N_attr": int(g.N), "get_N": int(g.get_N())}
+            out["alias"] = _alias_probe(g, dim, full, upper, idx)
             if g.polytope is not None:
                 out["level"] = int(g.polytope.current_level) - 1
                 fam = family_of(alg)
@@ -784,6 +825,12 @@ def _grid_check_body(ctx, case, out):
         call = (f"{alg} grid class with N={N} and the level-{level_for(alg, N)} polytope, gen_grid()" if case.get("inject")
                 else f"SphereGridFactory.create({alg!r}, {N}, {dim})")
         ctx.fail("C07:exception", f"{call} raised {out['err']}: {out.get('msg', '')}", case)
+        return
+    if out.get("alias"):
+        al = out["alias"]
+        ctx.fail("C07:aliasing", f"overwriting the array returned by {al['written_into']} changes the grid object itself: a second "
+                                 f"{al['changed_read']} differs (the stored rows are no longer unit / canonical / [G; -G])", case,
+                 al.get("before"), al)
         return
     full, upper = out["full"], out["upper"]
     rows = upper if dim == 4 else full
